@@ -2,6 +2,6 @@
 using namespace smooth;
 MC_SUBCHECK(se)
 {
-  c15::run<SE2d>("SE2d", 3, 5);
-  c15::run<SE3d>("SE3d", 4, 6);
+  c15::run<SE2d>("SE2d", 5, 6);
+  c15::run<SE3d>("SE3d", 5, 6);
 }
